@@ -70,7 +70,7 @@ def statement_seq(draw, *, arity: int, mode: str, max_len: int = 12, min_len: in
     lit = literal(rdflib_safe)
     n_iris = draw(st.sampled_from([1, 2, 3, 4, 6, 9, 12, 14]))
     n_iris = min(n_iris, max(pool_max, 1))
-    profile = draw(st.sampled_from(["mixed", "mixed", "prefix_churn", "name_churn"])) if pool_max >= 8 else "mixed"
+    profile = draw(st.sampled_from(["mixed", "mixed", "mixed", "prefix_churn", "name_churn", "datatype_churn"])) if pool_max >= 8 else "mixed"
     if profile == "prefix_churn":
         # many namespaces x very few local names: prefix slots are recycled while the names stay resident
         pfx = draw(st.lists(st.sampled_from(PREFIXES), min_size=4, max_size=9, unique=True))
@@ -84,6 +84,11 @@ def statement_seq(draw, *, arity: int, mode: str, max_len: int = 12, min_len: in
         iris = draw(st.lists(iri, min_size=n_iris, max_size=n_iris))
     bnodes = draw(st.lists(bnode, min_size=0, max_size=3))
     lits = draw(st.lists(lit, min_size=0, max_size=4))
+    if profile == "datatype_churn":
+        # many datatypes x few lexical forms: datatype slots are recycled (with a table smaller than the number of types)
+        dts_ = draw(st.lists(st.sampled_from([d for d in DATATYPES if d != XSD + "string"] + [XSD + n for n in ("decimal", "float", "long", "int", "byte", "time")]),
+                             min_size=5, max_size=9, unique=True))
+        lits = [["lit", draw(st.sampled_from(["1", "x"])), None, d] for d in dts_]
     quoteds = draw(st.lists(quoted(quoted_depth), min_size=0, max_size=3)) if mode == "gen" else []
     gdefault = [["default"]]
     if mode == "gen":
@@ -93,7 +98,7 @@ def statement_seq(draw, *, arity: int, mode: str, max_len: int = 12, min_len: in
     else:
         s_pool = iris + bnodes
         p_pool = iris
-        o_pool = iris + bnodes + lits
+        o_pool = iris + bnodes + lits if profile != "datatype_churn" else iris[:2] + lits + lits
         g_pool = iris[:3] + bnodes + gdefault + gdefault
         if rdflib_safe:  # rdflib cannot hold a graph named by the empty IRI (falsy identifier -> fresh BNode)
             # ... and an IRI spelled like rdflib's own name for the default graph IS the default graph there (Hypothesis
@@ -215,6 +220,11 @@ def preset_for(draw, statements, extra_iris: int = 0, allow_zero_prefix: bool = 
         dchoices = [0, 1, 2, 32, 4096]
     else:
         dchoices = sorted({kd, kd + 1, 32, 4096} - set(range(kd)))
+    n_dt = len({d for stt in statements for t in stt for d in (_all_datatypes(t, []) if count_string else datatypes_of(t))})
+    if n_dt > max(kd, 1) + 1:
+        # the data can recycle datatype slots: make small tables (3, 4: the smallest in which "the slot after the last
+        # one" and "the last slot" differ) likely
+        dchoices = dchoices + [s_ for s_ in (3, 3, 4, n_dt - 1) if s_ >= max(kd, 1)]
     datatypes = draw(st.sampled_from(dchoices))
     return [names, prefixes, datatypes]
 
